@@ -99,3 +99,12 @@ add("C18", "exploration", [
     {"name": "c18-slices", "bin": "c18", "pkg": ZZ + "c18", "run": "^TestVerifC18SliceConstructors$",
      "shards": {"quick": 1, "thorough": 1}, "timeout": {"quick": 600, "thorough": 3000}},
 ])
+
+add("C08", "exploration", [
+    {"name": "c08-compile", "bin": "exec", "pkg": "./exec", "run": "^TestVerifC08Compile$",
+     "shards": {"quick": 8, "thorough": 16}, "checks": {"quick": 500, "thorough": 15000},
+     "timeout": {"quick": 600, "thorough": 3000}},
+    {"name": "c08-cross", "bin": "exec", "pkg": "./exec", "run": "^TestVerifC08CrossProcess$",
+     "shards": {"quick": 4, "thorough": 8}, "checks": {"quick": 8, "thorough": 60},
+     "timeout": {"quick": 600, "thorough": 3000}},
+])
